@@ -27,7 +27,15 @@ CONFIGS = [
 # from the environment in one command line)
 HEADER = ("global_options(['-DGLOBAL_C=1'], lang='c')\n"
           "global_link_options(['-Wl,--as-needed', '-Lglobaldir'])\n"
-          "global_link_options(['--verif-static-flag'], mode='static')")
+          "global_link_options(['--verif-static-flag'], mode='static')\n"
+          # steps with an environment: a single string-form compound command,
+          # several command lines, a list-form command
+          "command('envchain', cmd=R + ' ENVA && ' + R + ' ENVB', "
+          "environment={'VV_ONE': '1', 'VV_TWO': 'a b'})\n"
+          "command('envlines', cmds=[[R, 'ENVC'], R + ' ENVD | ' + R + "
+          "' ENVE'], environment={'VV_ONE': '2'})\n"
+          "build_step('envstep.txt', cmd=[R, 'ENVF', "
+          "'--verif-touch=envstep.txt'], environment={'VV_THREE': '3'})")
 
 
 def steps_of(r, goals):
@@ -116,8 +124,8 @@ def compare(arg):
                                'ninja': {'present': False},
                                'compdb': {'argv': []}, 'note': c['out']})
                 return events
-        goals = ['all'] + [d['name'] for d in decls if d['kind'] in
-                           ('alias', 'cmd')] + \
+        goals = ['all', 'envchain', 'envlines', 'envstep.txt'] + [
+            d['name'] for d in decls if d['kind'] in ('alias', 'cmd')] + \
             [r.outs[n] for n in sorted(runs['make'].outs)] + ['tests']
         interm = {'.o', '.d', '.stamp', '.dir'}
         tm = {x for x in targets_make(runs['make'].p)
